@@ -44,7 +44,7 @@ RULE = ("(a) all lists of 1-2 input shapes x {[()],[s],[s,()]} output shapes ove
         "condition shape of rank 0-2 (sizes 1-3; quick tier: every event shape x >=4 condition shapes), Normal(loc array) and StandardNormal "
         "(unconditional, with and without a passed condition), conditional coupling flows; sample_shape in {(),(2,),(2,3)}; leading batch "
         "shapes on x and condition from {(),(1,),(2,),(3,),(1,1),(2,1),(1,3),(2,3),(3,1),(2,1,3)} incl. non-broadcastable pairs, "
-        "wrong trailing dimensions, too-small rank, condition=None, zero-sized batches; every element of every accepted result is compared. "
+        "wrong trailing dimensions, too-small rank, condition=None, zero-sized sample shapes and batches ((0,), (2,0), (0,1), (3,0)); every element of every accepted result is compared. "
         "non-trivial = batch shapes are not both () ; distinct = distinct (family, event, cond, method, sample_shape, x batch, cond batch)")
 TRUSTED = [
     "Lean 4.33 kernel; axioms propext, Classical.choice, Quot.sound",
@@ -54,8 +54,8 @@ TRUSTED = [
 ]
 ASSUMPTIONS = [
     "keys are legacy uint32[2] PRNG keys (a typed jr.key(...) makes _get_sample_keys' reshape raise TypeError)",
-    "zero-sized sample_shape / condition batch: sample raises TypeError (max(1, prod) keys cannot be reshaped to size 0); the "
-    "output-shape theorems carry the hypothesis prod(key_shape) != 0 and the model reproduces the TypeError",
+    "zero-sized sample_shape / condition batch: accepted since /repo commit 2d206ec (key_size = prod(key_shape)); they are part of the "
+    "correspondence and of the search oracle; the previous max(1, prod) rule is kept as a model variant (max1_variant_rejects_zero_size)",
     "the unbatched _log_prob/_sample/_sample_and_log_prob are arbitrary functions returning arrays of the declared shapes",
 ]
 
@@ -202,11 +202,12 @@ def cases_for(fam, event, cond, rng, tier, full):
         for ss, cb in combos:
             for m in ("sample", "sample_and_log_prob"):
                 out.append(Case(fam, ev, cs, m, ss, (), cb + cs, seed, "lattice"))
-        sx = [((2,), (2,) + bad_cs, "cond-trailing"), ((2,), None, "cond-none"), ((0,), (2,) + cs, "zero-sample-shape"), ((2,), (0,) + cs, "zero-cond-batch")]
+        sx = [((2,), (2,) + bad_cs, "cond-trailing"), ((2,), None, "cond-none"), ((0,), (2,) + cs, "zero-sample-shape"), ((2,), (0,) + cs, "zero-cond-batch"),
+              ((2, 0), cs, "zero-sample-shape"), ((), (0, 1) + cs, "zero-cond-batch"), ((0,), (3, 0) + cs, "zero-both"), ((0,), (2,) + bad_cs, "zero-and-cond-trailing")]
         if cs:
             sx.append(((2,), cs[1:], "cond-rank"))
         if not full:
-            sx = rng.sample(sx, 2)
+            sx = rng.sample(sx, 4)
         for ss, cf, tag in sx:
             out.append(Case(fam, ev, cs, rng.choice(["sample", "sample_and_log_prob"]), ss, (), cf, seed, tag))
     else:
@@ -219,9 +220,9 @@ def cases_for(fam, event, cond, rng, tier, full):
         if ev:
             out.append(Case(fam, ev, None, "log_prob", (), (2,) + bad_ev, None, seed, "x-trailing"))
             out.append(Case(fam, ev, None, "log_prob", (), ev[1:], None, seed, "x-rank"))
-        for ss in SAMPLE_SHAPES + [(0,)]:
+        for ss in SAMPLE_SHAPES + [(0,), (2, 0)]:
             for m in ("sample", "sample_and_log_prob"):
-                out.append(Case(fam, ev, None, m, ss, (), None if ss != (2,) else (5, 4), seed, "lattice"))
+                out.append(Case(fam, ev, None, m, ss, (), None if ss != (2,) else (5, 4), seed, "lattice" if 0 not in ss else "zero-sample-shape"))
     return out
 
 
@@ -382,7 +383,7 @@ def corr(c, tier, rng):
             if len(c.samples) < 12:
                 c.samples.append(smp)
     c.count("worker_processes", jobs)
-    c.notes.append("zero-sized sample_shape/condition batch: real sample raises TypeError (model agrees); typed jr.key keys are outside the model")
+    c.notes.append("zero-sized sample_shape/condition batch are accepted by model and implementation (repaired in /repo 2d206ec); typed jr.key keys are outside the model")
 
 
 def _freeze(x):
@@ -412,10 +413,10 @@ def _check_elements(c, case, dist, outs, plist, key_line, fns_):
         # ---- (d) keys
         ks_model, size_model = key_line.split(" ")
         size = int(np.prod(keys.shape[:-1]))
-        if keys.shape != psh(ks_model) + (2,) or int(size_model) != max(1, size):
+        if keys.shape != psh(ks_model) + (2,) or int(size_model) != size:
             c.mismatch("keyShape-vs-_get_sample_keys", case=case.desc(), model=key_line, impl=list(keys.shape))
         kflat = keys.reshape(-1, 2)
-        if not np.array_equal(kflat, np.asarray(jr.split(key, max(1, size)))):
+        if not np.array_equal(kflat, np.asarray(jr.split(key, size)).reshape(-1, 2)):
             c.mismatch("keys-are-row-major-reshape-of-split", case=case.desc())
         if len({tuple(r) for r in kflat.tolist()}) != len(kflat):
             c.mismatch("keys-distinct", case=case.desc())
@@ -463,6 +464,7 @@ def corr_dists(c, tier, rng, grid):
     got = vlib.run_model(lines)
     pair_lines, pair_owner = [], []
     key_lines, key_owner = [], []
+    accepted = []
     for ri, ((case, di, outs, exc), g, line) in enumerate(zip(records, got, lines)):
         want = exc if outs is None else " ".join(sh(o.shape) for o in outs)
         nontriv = case.tag != "lattice" or case.ss != () or (case.xfull != case.event) or (case.cfull is not None and case.cfull != case.cond)
@@ -484,10 +486,11 @@ def corr_dists(c, tier, rng, grid):
             key_lines.append(f"keyshape {osh(case.cond)} {sh(case.ss)} {osh(case.cfull)}"); key_owner.append(ri)
         loop = outs[-1].shape if case.method != "sample" else outs[0].shape[: outs[0].ndim - ev_n]
         n = int(np.prod(loop))
+        accepted.append(ri)
         for k in range(n):
             pair_lines.append("pair " + " ".join(sh(l) for l in leads) + f" {k}"); pair_owner.append((ri, k))
     pair_out = vlib.run_model(pair_lines)
-    by_rec = {}
+    by_rec = {ri: [] for ri in accepted}
     for (ri, k), o in zip(pair_owner, pair_out):
         by_rec.setdefault(ri, []).append((k, o))
     key_out = dict(zip(key_owner, vlib.run_model(key_lines)))
@@ -612,6 +615,11 @@ def search(hints, tier, rng):
         for ss in SAMPLE_SHAPES:
             for cb in rng.sample([(), (2,), (2, 1), (1, 3)], 2 if full else 1):
                 trials.append((rng.choice(["sample", "sample_and_log_prob"]), ss, (), cb))
+        # zero-sized sample shapes / condition batches / x batches: accepted, shapes as usual, no element
+        zs = [((0,), (2,)), ((2,), (0,)), ((2, 0), ()), ((), (0, 1)), ((0,), (3, 0))]
+        for ss, cb in (zs if full else rng.sample(zs, 2)):
+            trials.append((rng.choice(["sample", "sample_and_log_prob"]), ss, (), cb))
+        trials.append(("log_prob", (), (0,), (1,)))
         if fam in ("custom", "stdnormal"):
             trials.append(("reject", (), (), ()))
         for method, ss, xb, cb in trials:
